@@ -629,6 +629,6 @@ func init() {
 			"preemption-bounded: context switches at blocking points are free, preemptions limited per the unit's bound",
 			"indices are the ones that were begun or finished; between the reference lower and upper bound either behaviour is accepted",
 		},
-		QuickS: 60, ThoroughS: 900,
+		QuickS: 90, ThoroughS: 900,
 	}
 }
